@@ -10,7 +10,10 @@ ROOT = os.path.dirname(os.path.dirname(os.path.abspath(__file__)))
 def main():
     checks = []
     claimed = set()
+    allow = set(json.load(open(os.path.join(ROOT, "bin", "claimed.json"))))
     for pid in sorted(PROPS):
+        if pid not in allow:
+            continue
         t = TEXT[pid]
         claimed.add(pid)
         checks.append({
